@@ -23,8 +23,13 @@ def c_shape(sh):
     return clist(sh, cnat)
 
 
+MAXLIT = 700
+
+
 def c_lit(spec):
     t = spec['t']
+    if (t == 'full' and len(spec['d']) > MAXLIT) or (t == 'tucker' and len(spec['X']['d']) > MAXLIT):
+        raise NotExact('too large for a literal')
     if t == 'scal':
         return '(Sc %s)' % zi(spec['v'])
     if t == 'full':
